@@ -13,7 +13,7 @@ from pathlib import Path
 from hypothesis import HealthCheck, Phase, given, seed as hseed, settings, strategies as st
 
 from vpbt import bytecode_model as bm, c09_oracle as O, gen_programs as gp, pyexec as X
-from vpbt.core import REPO, VERIF, Collector, h64
+from vpbt.core import REPO, VERIF, Collector, h64, library_raised
 
 PID = "C09"
 RULE = (
@@ -211,7 +211,9 @@ def _trace(col, ver, src):
         return
     try:
         bf = ByteFlow.from_bytecode(code)
-    except Exception:
+    except Exception as e:
+        if not library_raised(e):
+            raise
         col.count("trace_from_bytecode_raised")
         return
     blocks = sorted(bf.scfg.graph.values(), key=lambda b: b.begin)
